@@ -61,7 +61,7 @@ type PhoutCase struct {
 	Queue         int          `json:"sample_queue_size"`
 	BufferBytes   int          `json:"buffer_size"`
 	Reporters     [][]PhSample `json:"reporters"`
-	Rounds        int          `json:"rounds"` // every reporter goes through its list this many times
+	Rounds        int          `json:"rounds"`               // every reporter goes through its list this many times
 	RunDelayUs    int          `json:"run_started_after_us"` // reporters start first (core.Aggregator: "MAY NOT because of goroutine races")
 	GapUs         int          `json:"gap_between_reports_us"`
 	CancelDelayUs int          `json:"cancel_after_last_report_us"`
